@@ -82,7 +82,18 @@ def handle (hdr : List String) (body : List (List String)) : List String :=
            | _, _, _, _ => none)
         | _, ["impl", "panic"] => some "index-crash"
         | _, _ => none)
-      out.reverse ++ (match bad with | some b => ["monitor C15 FAIL " ++ b] | none => [])
+      -- a range whose index file was written is answered, not refused: an error where the (proven) provider model
+      -- answers means index-covered bundles are read unfiltered from there on
+      let bad2 := ((pairs.zip out.reverse).findSome? (fun ((o, i), m) =>
+        match o, i with
+        | ["op", "query", _, _, _], ["impl", "res", "err"] =>
+          if m != "model res err" && m.startsWith "model res" then some "indexed-range-answered-with-an-error" else none
+        | _, _ => none))
+      let verdict : List String := match bad, bad2 with
+        | some b, _ => ["monitor C15 FAIL " ++ b]
+        | none, some b => ["monitor C15 FAIL " ++ b]
+        | none, none => []
+      out.reverse ++ verdict
     | _, _ => ["model bad-case"]
   | _ => ["model bad-case"]
 
